@@ -39,6 +39,48 @@ def all_source_keys(node):
     return out
 
 
+def frozen_view_check(ds, m, node):
+    """copy(freeze=True) of a reshuffling pipeline is a fixed selection: its keys(), items() and iteration must stay
+    aligned with each other - also after the original pipeline ran further epochs (history dependence)."""
+    desc = f'program: {progs.show(node)}.copy(freeze=True)'
+    try:
+        F = ds.copy(freeze=True)
+    except Exception as e:
+        raise Violation('freeze-raised|' + node['op'], f'{desc}: {e!r}')
+    pairs_by_key = {}
+    for k, v in zip(m.keys, m.vals):
+        pairs_by_key.setdefault(k, []).append(v)
+
+    def snapshot(tag):
+        try:
+            items = list(F.items())
+        except Exception as e:
+            raise Violation('frozen-items-raised|' + node['op'], f'{desc} ({tag}): {e!r}')
+        for pair in items:
+            if not (isinstance(pair, tuple) and len(pair) == 2 and any(observe.same(pair[1], v)
+                                                                      for v in pairs_by_key.get(pair[0], []))):
+                raise Violation('frozen-items-pairing|' + node['op'],
+                                f'{desc} ({tag}): items() yielded {pair!r}; examples of that key: '
+                                f'{pairs_by_key.get(pair[0])}')
+        try:
+            ks = list(F.keys())
+        except Exception:
+            ks = None
+        if ks is not None and ks != [k for k, _ in items]:
+            raise Violation('frozen-keys-vs-items|' + node['op'],
+                            f'{desc} ({tag}): keys() {ks} but items() keys {[k for k, _ in items]}')
+        vals = list(F)
+        if not observe.same_list(vals, [v for _, v in items]):
+            raise Violation('frozen-iteration-vs-items|' + node['op'], f'{desc} ({tag}): {vals} vs {items}')
+        return items
+    first = snapshot('fresh')
+    list(ds)
+    ds.copy(freeze=True)
+    second = snapshot('after another epoch of the original')
+    if not observe.same_list(first, second):
+        raise Violation('frozen-view-changed|' + node['op'], f'{desc}: {first} then {second}')
+
+
 def check_program(node, rec=None):
     ds, env = progcheck.build_checked(node)
     siblings = sorted(set(all_source_keys(node)))
@@ -71,6 +113,10 @@ def check_program(node, rec=None):
                 raise Violation(v.sig, f'program: {progs.show(late_node)}, derived AFTER keys()/items()/lookups '
                                        f'were used on its input\n{v.detail}')
         break  # the outermost eligible stage is enough per program
+    m_root = ev(node)
+    if m_root.unordered and m_root.keys is not None and m_root.cap_items == 'req' and not m_root.taint \
+            and 'local_shuffle' not in progs.ops(node):
+        frozen_view_check(ds, m_root, node)
     if rec is not None:
         m = ev(node)
         cls = progcheck.classes_of(node, m)
